@@ -68,6 +68,19 @@ class UnmanagedVector
         }
         data_ = new_mem;
     }
+
+    template <class Allocator>
+    constexpr void deallocate(std::size_t capacity, const Allocator& allocator) noexcept
+    {
+        if (data_)
+        {
+            using Traits = RebindTraits<Allocator, T>;
+            typename Traits::allocator_type alloc(allocator);
+            Traits::deallocate(alloc, data_, capacity);
+            data_ = nullptr;
+            size_ = 0;
+        }
+    }
 };
 }  // namespace cntgs::detail
 
